@@ -316,6 +316,20 @@ def independent_signer(env, name):
                 o = outcome(lambda: bool(pub.verify(sobj, pgpy.PGPSignature.from_blob(pkt))))
                 if o != ('ok', True):
                     ctx.fail('independent-signer', 'PGPy rejects a valid RFC 4880 signature made by the independent signer', dict(case, impl=repr(o)))
+                # the signer MODEL (Model/SigCompose.v sign_body, theorem C02_sign_export_parse_verify) assembles the same packet:
+                # digest and signing primitive are answered here with the same raw private numbers (deterministic re-use of mp)
+                if variant < 3:
+                    d.oracles['digest'] = lambda hh, dd: hx(S.digest(int(hh, 16), unhx(dd)))
+                    d.oracles['pk_sign'] = lambda pp, dd, hh, mp=mp: hx(b''.join(S.mpi(m) for m in mp))
+                    def enc_sps(area):
+                        out, b2 = [], area[2:]
+                        while b2:
+                            ln = b2[0]; assert ln < 192
+                            out.append('%s:%d:%s' % (hn(b2[1] & 0x7f), 1 if b2[1] & 0x80 else 0, hx(b2[2:1 + ln]))); b2 = b2[1 + ln:]
+                        return ','.join(out) or '-'
+                    mb = d.call('sign_body', hn(st), hn(alg), hn(hv), enc_sps(hashed), enc_sps(unhashed), '00', S.subj_args(msubj))
+                    if mb == 'ERR' or bytes([4]) + unhx(mb) != body:
+                        ctx.fail('independent-signer', 'signer model (sign_body) assembles a different packet than the RFC assembly', dict(case, model=mb[:200]))
                 # and the independent verifier accepts it too (self-check of the harness)
                 if not S.indep_verify(alg, ipub, hv, data, mp):
                     ctx.fail('independent-signer', 'harness self-check: independent signer/verifier disagree', case)
